@@ -92,7 +92,8 @@ Fixpoint ok_hist (s : spec_state) (l : list (hop * hobs)) : bool * spec_state * 
   match l with
   | [] => (true, s, true)
   | (HW o, OW code _) :: r =>
-      let dirty := match o with WWrite _ | WCommit => negb ((code =? 0) || (code =? 6)) | _ => false end in
+      (* 99 = a write stopped by an injected short write: nothing of the session is committed *)
+      let dirty := match o with WWrite _ | WCommit | WWriteFault _ _ _ => negb ((code =? 0) || (code =? 6) || (code =? 99)) | _ => false end in
       if dirty then (true, s, false) else ok_hist (spec_step s o code) r
   | (HRead keys t, o) :: r =>
       if reads_ok s keys t o then ok_hist s r else (false, s, true)
